@@ -39,6 +39,24 @@ pub fn exec(out: &mut impl Write, target: &str, arg: u64, bytes: &[u8]) {
             config.network.runs_behind_reverse_proxy = arg == 1;
             measure(move || match aquatic_http::verif_hooks::parse_request(&config, &b) { Ok(_) => "ok".to_string(), Err(_) => "err".to_string() })
         }
+        "httpprefix" => {
+            // what the request loop of a connection relies on: an accepted request is not accepted before its last
+            // byte is there (no proper prefix is accepted)
+            let b = bytes.to_vec();
+            let mut config = aquatic_http::config::Config::default();
+            config.network.runs_behind_reverse_proxy = arg == 1;
+            measure(move || {
+                use aquatic_http::verif_hooks::RequestParseError as E;
+                match aquatic_http::verif_hooks::parse_request(&config, &b) {
+                    Ok(_) => match (0..b.len()).find(|n| aquatic_http::verif_hooks::parse_request(&config, &b[..*n]).is_ok()) {
+                        None => "ok stable".to_string(),
+                        Some(n) => format!("ok early@{}", n),
+                    },
+                    Err(E::MoreDataNeeded) => "more".to_string(),
+                    Err(_) => "err".to_string(),
+                }
+            })
+        }
         "httpresp" => {
             let b = bytes.to_vec();
             measure(move || match aquatic_http_protocol::response::Response::parse_bytes(&b) { Ok(_) => "ok".to_string(), Err(_) => "err".to_string() })
@@ -217,12 +235,12 @@ fn run_case(out: &mut impl Write, seed: u64, case: usize, pending: Option<&std::
         out.write_all(&buf).unwrap();
         out.flush().unwrap();
     };
-    let target = r.pick(&["udpreq", "udpreq", "udpresp", "httpreq", "httpreq", "httpresp", "wsin", "wsin", "wsout", "wsguard", "peerid", "aclline"]);
+    let target = r.pick(&["udpreq", "udpreq", "udpresp", "httpreq", "httpreq", "httpprefix", "httpresp", "wsin", "wsin", "wsout", "wsguard", "peerid", "aclline"]);
     let arg: u64 = match target { "udpreq" => r.pick(&[0u64, 1, 3, 70, 255]), _ => r.below(2) };
     let seedb: Vec<u8> = match target {
         "udpreq" => udp_seed(&mut r),
         "udpresp" => udp_resp_seed(&mut r),
-        "httpreq" => http_seed(&mut r),
+        "httpreq" | "httpprefix" => http_seed(&mut r),
         "httpresp" => http_resp_seed(&mut r),
         "wsin" => if r.chance(25) { json_tricky(&mut r) } else { ws_seed(&mut r) },
         "wsout" => if r.chance(25) { json_tricky(&mut r) } else { ws_out_seed(&mut r) },
